@@ -214,6 +214,41 @@ func init() {
 	})
 }
 
+// sm9-k1zero: one history around the rule of GM/T 0044.4 7.1 A6 "K1 all zero: go back to A2". The recorder
+// searches (through the library itself) for a nonce whose K1 is 00 for a one-byte message: the library either
+// emits C2 = M for it or draws again (two chunks consumed). The event carries g^r for the nonce and for the spare
+// one; the specification (TEncK1) follows the standard. Reported by c10.py as a note, not as a verdict on C10.
+func init() {
+	RegisterRecorder("sm9-k1zero", func(r *mrand.Rand, log func(map[string]interface{})) {
+		h := &sm9rec{r: mrand.New(mrand.NewSource(r.Int63())), log: log}
+		log(map[string]interface{}{"op": "new", "idx": -1})
+		h.encMasterGen(false)
+		uid := rbytes(h.r, 3)
+		eu := h.encUser(uid, 3)
+		pub := h.emaster.PublicKey()
+		msg := []byte{0x5a}
+		spare := sm9Chunk(h.r)
+		for k := 1; k < 20000; k++ {
+			c := make([]byte, 32)
+			c[30], c[31] = byte(k>>8), byte(k)
+			s := &sm9Script{chunks: [][]byte{c, spare}}
+			out, err := sm9.Encrypt(s, pub, uid, 3, msg, nil)
+			if err != nil {
+				panic("harness: sm9-k1zero: Encrypt: " + err.Error())
+			}
+			if out[96] != msg[0] && s.used == 1 {
+				continue
+			}
+			dec, derr := sm9.Decrypt(eu, uid, out, nil)
+			g := vh.Pair(sm9G1(pub.Bytes()), vh.Gen2)
+			log(map[string]interface{}{"op": "enck1", "uid": hx(uid), "hid": 3, "msg": hx(msg), "script": s.hexes(), "used": s.used,
+				"out": hx(out), "w1": hx(sm9Pow(g, c)), "w2": hx(sm9Pow(g, spare)), "dec": hx(dec), "derr": derr != nil})
+			return
+		}
+		panic("harness: sm9-k1zero: no nonce with K1 = 00 among 20000 (probability 1e-34)")
+	})
+}
+
 // ---------------------------------------------------------------- master and user keys
 
 func (h *sm9rec) signMasterGen(edge bool) {
